@@ -25,10 +25,11 @@ ASSUMPTIONS = [
     "a 6-standard-error band at n = 2e5, not a proof",
 ]
 
-DTYPES = ("float64", "float32", "float16", "int16", "int32")
+DTYPES = ("float64", "float32", "float16", "int16", "int32", ">i2", ">f4", ">f8")  # incl. non-native byte order
 COEFFS = (0.0, 0.5, 0.97, -1.0, 3.0)
 LAYOUTS = ("contiguous", "strided", "reversed", "readonly")
-SCALE = {"float64": 1.0, "float32": 1.0, "float16": 4.0, "int16": 1000.0, "int32": 100000.0}
+SCALE = {"float64": 1.0, "float32": 1.0, "float16": 4.0, "int16": 1000.0, "int32": 100000.0,
+         ">i2": 1000.0, ">f4": 1.0, ">f8": 1.0}
 
 
 def _values(seed, n, dtype, offset=0):
@@ -98,7 +99,7 @@ def _pre_case(seed, N, dtype, coeff, in_place, layout):
         return viol, "exc"
     got = r[1]
     if not isinstance(got, np.ndarray) or got.dtype != np.dtype(dtype) or got.shape != (N,):
-        viol.append(core.violation(dict(tags, what="dtype_or_shape"),
+        viol.append(core.violation(dict(tags, what="dtype_or_shape", swapped_input=dtype.startswith(">")),
                                    "returned %r %r, expected %s (%d,)" % (
                                        getattr(got, "dtype", type(got)), getattr(got, "shape", None),
                                        dtype, N), case))
@@ -175,7 +176,8 @@ def _dither_case(seed, s, N, dtype, coeff, in_place, layout):
     got = r[1]
     if not isinstance(got, np.ndarray) or got.dtype != np.dtype(dtype) or got.shape != (N,):
         bad("dtype_or_shape", "returned %r %r, expected %s (%d,)" % (
-            getattr(got, "dtype", type(got)), getattr(got, "shape", None), dtype, N))
+            getattr(got, "dtype", type(got)), getattr(got, "shape", None), dtype, N),
+            swapped_input=dtype.startswith(">"))
         return viol
     got = got.copy()
     if not in_place and not np.array_equal(base, before):
@@ -502,6 +504,82 @@ def _object_history_points(tier):
     return pts
 
 
+TWO_OPS = [["apply", "A"], ["apply", "B"], ["set", "A", 0.5], ["set", "B", 0.25], ["new", "C", 0.0],
+           ["apply", "C"]]
+
+
+def _two_objects(pt, seed):
+    """SEVERAL live objects of one class with different coefficients: A and B are constructed first (in
+    that order), then every sequence over {apply A, apply B, A.coeff := 0.5, B.coeff := 0.25, construct
+    C(0.0), apply C}.  Oracle per apply: the reference computed from the coefficient THAT object was
+    last given (Preemphasize: the float64 recurrence; Dither: x + normal(0, coeff) drawn by the harness
+    under the same numpy seed) - never another instance of the class, so state shared between instances
+    cannot hide in the oracle."""
+    from pydrobert.speech import pre
+
+    proc, dtype, ca, cb, ops = pt
+    cls = {"Preemphasize": pre.Preemphasize, "Dither": pre.Dither}[proc]
+    objs = {"A": cls(ca)}
+    objs["B"] = cls(cb)
+    coeffs = {"A": ca, "B": cb}
+    vals = _values(seed, 6, dtype)
+    case = dict(kind="two_objects", proc=proc, dtype=dtype, ca=ca, cb=cb, ops=ops)
+    viol = []
+    applies = 0
+    for step, op in enumerate(ops):
+        if op[0] == "new":
+            objs[op[1]] = cls(op[2])
+            coeffs[op[1]] = op[2]
+            continue
+        if op[0] == "set":
+            objs[op[1]].coeff = op[2]
+            coeffs[op[1]] = op[2]
+            continue
+        if op[1] not in objs:
+            continue
+        c = coeffs[op[1]]
+        applies += 1
+        np.random.seed(77 + step)
+        r = computers.call(lambda: objs[op[1]].apply(np.array(vals, copy=True)))
+        if proc == "Preemphasize":
+            want = _pre_ref(vals, c, dtype)
+            ok = r[0] == "ok" and _same(r[1], want)
+        else:
+            np.random.seed(77 + step)
+            noise = np.random.normal(0, c, vals.shape) if c else np.zeros(vals.shape)
+            total = vals.astype(np.float64) + noise
+            if np.dtype(dtype).kind == "i":
+                want = np.trunc(total).astype(dtype)
+                ok = r[0] == "ok" and _same(r[1], want)
+            else:
+                want = total.astype(dtype)
+                ok = (r[0] == "ok" and r[1].dtype == want.dtype and r[1].shape == want.shape and bool(np.all(
+                    np.abs(r[1].astype(np.float64) - total) <= 8 * np.spacing(np.abs(total)) + (
+                        0 if dtype == "float64" else np.spacing(np.abs(want)).astype(np.float64)))))
+        if not ok:
+            viol.append(core.violation(
+                dict(proc=proc, what="values_other_instance_alive", several_instances=True,
+                     coeff_of_other_differs=True),
+                "objects %s(%r) and %s(%r) alive, ops %r: step %d apply on %s (its coeff is %r) returned %s, "
+                "reference %r" % (proc, ca, proc, cb, ops, step, op[1], c,
+                                  r[1].tolist() if r[0] == "ok" else r[1:], want.tolist()), case))
+            break
+    return core.result(viol, nontrivial=applies > 0, obs=[proc, dtype, applies, len(viol) == 0], sample=case)
+
+
+def _two_objects_points(tier):
+    depth = 3 if tier == "quick" else 4
+    pts = []
+    for proc in ("Preemphasize", "Dither"):
+        for dtype in ("float64", "int16"):
+            for ca, cb in ((0.97, 0.5), (0.5, 0.97), (1.0, 0.0), (0.0, 3.0)):
+                for seq in itertools.product(TWO_OPS, repeat=depth):
+                    if not any(o[0] == "apply" for o in seq):
+                        continue
+                    pts.append((proc, dtype, ca, cb, [list(o) for o in seq]))
+    return pts
+
+
 RAILS = {"int16": [-32768, -32767, -1, 0, 1, 32766, 32767], "int32": [-2 ** 31, -2 ** 31 + 1, 0, 2 ** 31 - 1],
          "int8": [-128, -127, 0, 126, 127]}
 
@@ -563,6 +641,16 @@ def subchecks(tier, seed):
             "unchanged at the end; no memory shared between results; inputs of in_place=False calls untouched",
             axes=dict(ops=OH_OPS, proc=["Preemphasize", "Dither"], dtype=["float64", "float32", "int16"]),
             replay=lambda c: _object_history((c["proc"], c["dtype"], c["n"], c["ops"]), seed), kind="explore"),
+        core.SubCheck(
+            "two_objects", _two_objects_points(tier), lambda p: _two_objects(p, seed),
+            "two (then three) live objects of one class with DIFFERENT coefficients: every sequence of 3 "
+            "(thorough 4) operations over {apply A, apply B, A.coeff := .5, B.coeff := .25, construct C(0), "
+            "apply C} x coefficient pairs x {float64, int16}: each apply vs the reference for the coefficient "
+            "that very object was given (no second instance in the oracle); non-trivial = an apply happened",
+            axes=dict(ops=TWO_OPS, proc=["Preemphasize", "Dither"], dtype=["float64", "int16"],
+                      coeff_pairs=[[0.97, 0.5], [0.5, 0.97], [1.0, 0.0], [0.0, 3.0]]),
+            replay=lambda c: _two_objects((c["proc"], c["dtype"], c["ca"], c["cb"], c["ops"]), seed),
+            kind="explore"),
         core.SubCheck(
             "dither_rails", rails, _rails_point,
             "integer signals at the minimum / maximum of their dtype x numpy seed x coeff {0, .25, 1}: "
